@@ -1,6 +1,6 @@
 (* Executable entry of the schemaops model: opcode :: payload. *)
 From GV Require Import Base.Prelude SchemaOps.Schema SchemaOps.SchemaWire SchemaOps.NatOrder
-  SchemaOps.Sort SchemaOps.Diff SchemaOps.Build SchemaOps.Sdl SchemaOps.Introspect SchemaOps.IntrospectWire.
+  SchemaOps.Sort SchemaOps.Diff SchemaOps.Build SchemaOps.Sdl SchemaOps.Introspect SchemaOps.IntrospectWire SchemaOps.Client.
 
 Definition enc_change (c : change) : list N :=
   c_kind c :: enc_list enc_text (c_path c).
@@ -55,6 +55,15 @@ Definition run (inp : list N) : list N :=
   | 10 :: r =>
       match (o <- dec_opts ;; n <- dec_text ;; s <- dec_schema ;; retd (o, n, s)) r with
       | Some ((o, n, s), []) => 1 :: enc_json (type_lookup leaf_text s o n)
+      | _ => [0]
+      end
+  | 11 :: r =>
+      match dec_json 64 r with
+      | Some (j, []) =>
+          match build_client (fun t => Some (VLeaf 3 t)) j with
+          | Some s => 1 :: enc_schema s
+          | None => [2]
+          end
       | _ => [0]
       end
   | _ => [999999]
